@@ -222,7 +222,20 @@ def statistical(nb, seed, tier):
                 if tier == 'quick' and cls is UnitCubeEllipsoidMixture and kind in ('three',):
                     continue
                 u, pts, trims = make_union(nb, rng, d, kind, True, cls)
-                lab = 'Union-%d-%s-%s (members %d, trims %d)' % (d, kind, cls.__name__[:3], len(u.bounds), trims)
+                rt = ''
+                if kind in ('overlap', 'outliers') and cls is B.Ellipsoid:
+                    # "... or after a checkpoint round trip": continue with the object read back from an HDF5 group
+                    import h5py
+                    u.sample(137)
+                    with h5py.File('c08rt_%d.h5' % os.getpid(), 'w', driver='core', backing_store=False) as f:
+                        g = f.create_group('u')
+                        u.write(g)
+                        r2 = np.random.default_rng()
+                        r2.bit_generator.state = u.rng.bit_generator.state
+                        u = B.Union.read(g, rng=r2)
+                    rt = ', after a checkpoint round trip'
+                    st['round_trips'] = st.get('round_trips', 0) + 1
+                lab = 'Union-%d-%s-%s (members %d, trims %d%s)' % (d, kind, cls.__name__[:3], len(u.bounds), trims, rt)
                 with np.errstate(all='ignore'):
                     s = u.sample(N)
                     inside = u.contains(s)
